@@ -111,7 +111,11 @@ def worker_main(argv):
 # ---------------------------------------------------------------------------------------------
 def _merge_extra(dst, src):
     for k, v in src.items():
-        if isinstance(v, dict):
+        if k == "distinct_sets":
+            d = dst.setdefault(k, {})
+            for name, lst in v.items():
+                d.setdefault(name, set()).update(lst)
+        elif isinstance(v, dict):
             d = dst.setdefault(k, {})
             if isinstance(d, dict):
                 for kk, vv in v.items():
@@ -234,7 +238,9 @@ def run_check(cid, tier, seed):
                           "never_executed": sorted(set(lines) - hit)}
         coverage["anchored_function_coverage"] = cov
     for k, v in extra.items():
-        if k not in ("harness_tracebacks", "worker_crash", "cov_all", "cov_hit"):
+        if k == "distinct_sets":
+            coverage["distinct_observed"] = {name: len(x) for name, x in v.items()}
+        elif k not in ("harness_tracebacks", "worker_crash", "cov_all", "cov_hit"):
             coverage[k] = v
     if extra.get("harness_tracebacks"):
         coverage["harness_tracebacks"] = extra["harness_tracebacks"][:3]
